@@ -73,7 +73,7 @@ ASSUMPTIONS = [
     "one real height of that segment; only heights 1000j and 1000j+e occur as chain tips",
 ]
 
-LIARS = ["CP", "CX", "PV", "OM", "OU", "NH", "NS", "EX", "HC", "FO"]
+LIARS = ["CP", "CX", "PV", "OM", "OU", "NH", "NS", "EX", "HC", "FO", "SH", "SF"]
 
 
 def scen_tla(asg, bt, ft, hard):
@@ -101,6 +101,9 @@ def core_scenarios(maxh):
         ([H, ("HC", 1), H], 3, 2, 0),           # at the tip a liar with a false PrevFilterHeader
         ([H, ("OU", 3), ("OU", 3)], maxh, 3, 0),  # two liars whose filters omit the unparsable output script
         ([H, ("CP", 4), H], 4, 0, 0),           # false LAST checkpoint, tip exactly on its height (1001 hashes)
+        ([H, ("OM", 3), ("SH", 2)], maxh, 0, 0),  # a shorter (correct) checkpoint list; the lie lies beyond its end
+        ([H, ("OM", 2), H], 4, 0, 0),           # dispute with the tip exactly 2000 above its start: request = cap
+        ([T, ("SF", 0), T], 1, 1, 0),           # at the tip only a peer whose cfheaders answer is too short answers
     ]
     return S
 
